@@ -6,6 +6,8 @@
 open Model
 open Conv
 
+type string = String.t
+
 exception History_ends
 
 type ctx = {
@@ -96,6 +98,17 @@ let stateless (t : string array) : string option =
   | "LABELPRINT" -> Some (text_out (label_print (label_in t.(1))))
   | _ -> None
 
+let lim = n_of_int 1048576
+
+let load ctx (img : n list) (h : string) : out =
+  match decode lim ctx.n_edges img with
+  | LOk g ->
+      Hashtbl.replace ctx.gs h g;
+      Snap ("ok", h)
+  | LErr -> Plain "err"
+  | LPanic -> raise Model_panic
+  | LUnmod -> raise (Model_other "UNMODELLED")
+
 let step (ctx : ctx) (t : string array) : out =
   match stateless t with
   | Some r -> Plain r
@@ -143,6 +156,74 @@ let step (ctx : ctx) (t : string array) : out =
       | "CLONE" ->
           Hashtbl.replace ctx.gs t.(2) (op_clone (get ctx t.(1)));
           Snap ("ok", t.(2))
+      | "SLICE" ->
+          let rej =
+            List.map
+              (fun r ->
+                match String.split_on_char ':' r with
+                | a :: b :: rest -> (id_of_string a, id_of_string b, label_in (String.concat ":" rest))
+                | _ -> failwith "bad reject triple")
+              (Array.to_list (Array.sub t 4 (Array.length t - 4)))
+          in
+          let p a b l = not (List.exists (fun (a', b', l') -> a = a' && b = b' && label_eqb l l') rej) in
+          let order x = x in
+          let ng = unwrap (op_slice_some ctx.n_edges order (get ctx t.(1)) (id_of_string t.(2)) p) in
+          Hashtbl.replace ctx.gs t.(3) ng;
+          Snap ("ok", t.(3))
+      | "MERGE" ->
+          let g, r =
+            unwrap
+              (op_merge ctx.n_edges (get ctx t.(1)) (get ctx t.(2)) (id_of_string t.(3))
+                 (id_of_string t.(4)))
+          in
+          Hashtbl.replace ctx.gs t.(1) g;
+          Snap
+            ( (match r with
+               | None -> "ok"
+               | Some missed ->
+                   "err " ^ String.concat "," (List.map (fun v -> string_of_int (int_of_nat v)) missed)),
+              t.(1) )
+      | "SAVE" ->
+          let img = encode (get ctx t.(1)) in
+          Hashtbl.replace ctx.images t.(2) img;
+          Plain (Printf.sprintf "ok %d %s" (List.length img) (hex_of_bytes img))
+      | "LOAD" -> load ctx (Hashtbl.find ctx.images t.(1)) t.(2)
+      | "LOADCUT" ->
+          let img = Hashtbl.find ctx.images t.(1) in
+          let k = min (int_of_string t.(2)) (List.length img) in
+          load ctx (List.filteri (fun i _ -> i < k) img) t.(3)
+      | "LOADFLIP" ->
+          let img = Hashtbl.find ctx.images t.(1) in
+          let len = List.length img in
+          let i = if len = 0 then 0 else int_of_string t.(2) mod len in
+          let x = int_of_string ("0x" ^ t.(3)) in
+          load ctx (List.mapi (fun j b -> if j = i then n_of_int (int_of_n b lxor x) else b) img) t.(4)
+      | "LOADRAW" -> load ctx (bytes_of_hex t.(1)) t.(2)
+      | "LOADCUTS" ->
+          let img = Array.of_list (Hashtbl.find ctx.images t.(1)) in
+          let len = Array.length img in
+          let oks = ref [] and panics = ref [] and unmod = ref 0 in
+          for k = 0 to len - 1 do
+            match decode lim ctx.n_edges (Array.to_list (Array.sub img 0 k)) with
+            | LOk _ -> oks := string_of_int k :: !oks
+            | LErr -> ()
+            | LPanic -> panics := string_of_int k :: !panics
+            | LUnmod -> incr unmod
+          done;
+          if !unmod > 0 then raise (Model_other "UNMODELLED");
+          Plain
+            (Printf.sprintf "cuts n=%d ok=[%s] panic=[%s]" len
+               (String.concat "," (List.rev !oks))
+               (String.concat "," (List.rev !panics)))
+      | "SCRIPT" ->
+          let g, r = unwrap (op_deploy ctx.n_edges (get ctx t.(1)) (text_arg t.(2))) in
+          Hashtbl.replace ctx.gs t.(1) g;
+          Snap ((match r with Some c -> Printf.sprintf "ok %d" (int_of_nat c) | None -> "err"), t.(1))
+      | "XML" -> Plain (text_out (op_to_xml (get ctx t.(1))))
+      | "DOT" -> Plain (text_out (op_to_dot (get ctx t.(1))))
+      | "DEBUG" -> Plain (text_out (op_debug (get ctx t.(1))))
+      | "INSPECT" -> Plain (text_out (unwrap (op_inspect (get ctx t.(1)) (id_of_string t.(2)))))
+      | "VPRINT" -> Plain (text_out (unwrap (op_vprint (get ctx t.(1)) (id_of_string t.(2)))))
       | _ -> Plain "UNSUPPORTED")
 
 let ends_history_on_panic (op : string) : bool =
